@@ -15,7 +15,7 @@ try:
            "GOFLAGS=-mod=mod GOPROXY=off GOSUMDB=off GOTOOLCHAIN=local go test -count=1 ./varlink/... ./cmd/varlink-go-interface-generator/ 2>&1 | tail -4", timeout=900)
     print("existing tests:", "ok" if b"FAIL" not in t.stdout and t.returncode == 0 else "FAIL", t.stdout.decode().strip().replace("\n", " | ")[-300:])
     for i in ids:
-        c = sh("cd /verif && timeout 1500 ./check %s --tier quick 2>&1 | tail -3" % i, timeout=1600)
+        c = sh("cd /verif && timeout 1500 ./check %s --tier quick 2>&1 | grep -E '^(PASS|FAIL|VIOLATION|KNOWN-FINDING)' | tail -4" % i, timeout=1600)
         print(i, "->", c.stdout.decode().strip().replace("\n", " || ")[-600:])
 finally:
     sh("git -C /repo checkout -- . && git -C /repo clean -fdq")
